@@ -111,6 +111,7 @@ def worker(job):
     from vf import realrun
     from vf.gen import prog as G
     rt = realrun.attach_real("snarkjs")
+    realrun.install_boundary(rt)
     R = common.Run(PROP, "translation_validation", RULE)
     rnd = random.Random(job["seed"])
     p = rt.backend.get_modulus()
@@ -138,7 +139,10 @@ def worker(job):
             R.count("program_raised")
             R.case(nontrivial=False)
             continue
-        snap = realrun.snapshot(rt)
+        snap = realrun.boundary_snapshot(rt)
+        if realrun.snapshot(rt) != snap:
+            R.violation("backend-trace-differs-from-boundary", "the backend's in-memory trace is not what the runtime handed to it (constraints %d vs %d)" % (
+                len(realrun.snapshot(rt)["constraints"]), len(snap["constraints"])), src=src[:400], inputs=inputs)
         vals = snap["pubvals"] + snap["privvals"]
         classes = set()
         if any(v < 0 for v in vals):
@@ -177,7 +181,7 @@ def worker(job):
             a = PubVal(rnd.randint(-9, 9))
             b = PrivVal(rnd.randint(-9, 9))
             (a * b + a).val()
-            snap2 = realrun.snapshot(rt)
+            snap2 = realrun.boundary_snapshot(rt)
             wd = tempfile.mkdtemp(prefix="c10b-", dir=home)
             try:
                 os.chdir(wd)
